@@ -422,3 +422,160 @@ func init() {
 		m.ghost["ctc_equal"], m.ghost["ctc_b"] = true, true
 	}
 }
+
+// holiman/uint256 (assumed): a 256-bit value is its four limbs; SetBytes is a
+// function of the byte content; Cmp orders values (uninterpreted total order
+// predicate pair u256.lt / equality of limbs).
+func init() {
+	u256T := func(x *Exec) Sort { return ArraySort(SBV64, SBV64) }
+	decl := func(x *Exec) {
+		x.sc.Decl("u256", `(declare-fun u256.of ((Array Int (Array (_ BitVec 64) (_ BitVec 8))) Slice) (Array (_ BitVec 64) (_ BitVec 64)))
+(declare-fun u256.lt ((Array (_ BitVec 64) (_ BitVec 64)) (Array (_ BitVec 64) (_ BitVec 64))) Bool)
+(declare-fun u256.dec (Str) (Array (_ BitVec 64) (_ BitVec 64)))
+(declare-fun u256.decok (Str) Bool)
+(assert (forall ((a (Array (_ BitVec 64) (_ BitVec 64))) (b (Array (_ BitVec 64) (_ BitVec 64)))) (! (not (and (u256.lt a b) (u256.lt b a))) :pattern ((u256.lt a b)))))
+(assert (forall ((a (Array (_ BitVec 64) (_ BitVec 64)))) (! (not (u256.lt a a)) :pattern ((u256.lt a a)))))
+(assert (forall ((a (Array (_ BitVec 64) (_ BitVec 64))) (b (Array (_ BitVec 64) (_ BitVec 64)))) (! (or (= a b) (u256.lt a b) (u256.lt b a)) :pattern ((u256.lt a b)))))`)
+	}
+	libModels["(*github.com/holiman/uint256.Int).SetBytes"] = func(x *Exec, cs *callSite) *Val {
+		decl(x)
+		x.assumeNote("uint256.Int.SetBytes sets the value to a function of the byte content (big-endian, last 32 bytes); Cmp is a strict total order on values; SetFromDecimal parses a decimal string or fails")
+		pt := cs.cc.Args[0].Type().Underlying().(*types.Pointer)
+		loc := x.derefLoc(cs.st, cs.args[0], pt.Elem(), cs.pos, "uint256")
+		v := App(u256T(x), "u256.of", x.heap(cs.st, SBV8), x.term(cs.args[1]))
+		x.store(cs.st, loc, x.sc.Define("u256", v))
+		return cs.args[0]
+	}
+	libMods["(*github.com/holiman/uint256.Int).SetBytes"] = func(x *Exec, m *modSet, callee *ssa.Function) {
+		m.heaps[x.heapName(callee.Signature.Recv().Type().Underlying().(*types.Pointer).Elem())] = true
+	}
+	libModels["(*github.com/holiman/uint256.Int).SetFromDecimal"] = func(x *Exec, cs *callSite) *Val {
+		decl(x)
+		pt := cs.cc.Args[0].Type().Underlying().(*types.Pointer)
+		loc := x.derefLoc(cs.st, cs.args[0], pt.Elem(), cs.pos, "uint256")
+		s := x.term(cs.args[1])
+		okc := App(SBool, "u256.decok", s)
+		old := x.load(cs.st, loc)
+		x.store(cs.st, loc, x.sc.Define("u256dec", Ite(okc, App(u256T(x), "u256.dec", s), old)))
+		e := x.sc.Fresh("u256_err", SIface)
+		x.assume(cs.st, Eq(Eq(e, Term{"inil", SIface}), okc))
+		return &Val{T: e, Ty: errorType}
+	}
+	libMods["(*github.com/holiman/uint256.Int).SetFromDecimal"] = libMods["(*github.com/holiman/uint256.Int).SetBytes"]
+	libModels["(*github.com/holiman/uint256.Int).Cmp"] = func(x *Exec, cs *callSite) *Val {
+		decl(x)
+		pt := cs.cc.Args[0].Type().Underlying().(*types.Pointer)
+		a := x.load(cs.st, x.derefLoc(cs.st, cs.args[0], pt.Elem(), cs.pos, "uint256"))
+		b := x.load(cs.st, x.derefLoc(cs.st, cs.args[1], pt.Elem(), cs.pos, "uint256"))
+		r := Ite(Eq(a, b), bv64(0), Ite(App(SBool, "u256.lt", a, b), bv64(^uint64(0)), bv64(1)))
+		return &Val{T: x.sc.Define("u256cmp", r), Ty: types.Typ[types.Int]}
+	}
+	contractBuiltins["u256of"] = func(x *Exec, env *CEnv, n *CCall) (*CV, error) {
+		v, err := x.eval(env, n.Args[0])
+		if err != nil {
+			return nil, err
+		}
+		decl(x)
+		if env.specHeaps != nil {
+			env.specHeaps[x.heapName(SBV8)] = true
+		}
+		return &CV{T: App(u256T(x), "u256.of", x.heap(env.st, SBV8), x.cvTerm(v, nil))}, nil
+	}
+	contractBuiltins["u256dec"] = func(x *Exec, env *CEnv, n *CCall) (*CV, error) {
+		v, err := x.eval(env, n.Args[0])
+		if err != nil {
+			return nil, err
+		}
+		decl(x)
+		return &CV{T: App(u256T(x), "u256.dec", x.cvTerm(v, nil))}, nil
+	}
+	contractBuiltins["u256decok"] = func(x *Exec, env *CEnv, n *CCall) (*CV, error) {
+		v, err := x.eval(env, n.Args[0])
+		if err != nil {
+			return nil, err
+		}
+		decl(x)
+		return &CV{T: App(SBool, "u256.decok", x.cvTerm(v, nil)), Ty: types.Typ[types.Bool]}, nil
+	}
+	contractBuiltins["u256lt"] = func(x *Exec, env *CEnv, n *CCall) (*CV, error) {
+		a, err := x.eval(env, n.Args[0])
+		if err != nil {
+			return nil, err
+		}
+		b, err := x.eval(env, n.Args[1])
+		if err != nil {
+			return nil, err
+		}
+		decl(x)
+		return &CV{T: App(SBool, "u256.lt", x.cvTerm(a, nil), x.cvTerm(b, nil)), Ty: types.Typ[types.Bool]}, nil
+	}
+	contractBuiltins["hasprefix"] = func(x *Exec, env *CEnv, n *CCall) (*CV, error) {
+		v, err := x.eval(env, n.Args[0])
+		if err != nil {
+			return nil, err
+		}
+		lit, ok := n.Args[1].(*CStr)
+		if !ok {
+			return nil, fmt.Errorf("hasprefix: literal prefix expected")
+		}
+		return &CV{T: x.hasPrefixTerm(x.cvTerm(v, nil), lit.V), Ty: types.Typ[types.Bool]}, nil
+	}
+	contractBuiltins["hassuffix"] = func(x *Exec, env *CEnv, n *CCall) (*CV, error) {
+		v, err := x.eval(env, n.Args[0])
+		if err != nil {
+			return nil, err
+		}
+		lit, ok := n.Args[1].(*CStr)
+		if !ok {
+			return nil, fmt.Errorf("hassuffix: literal suffix expected")
+		}
+		return &CV{T: x.hasSuffixTerm(x.cvTerm(v, nil), lit.V), Ty: types.Typ[types.Bool]}, nil
+	}
+}
+
+func init() {
+	decl := func(x *Exec) {
+		x.sc.Decl("strconvfns", "(declare-fun strconv.u64 (Str) (_ BitVec 64))\n(declare-fun strconv.isu64 (Str) Bool)")
+	}
+	libModels["strconv.ParseUint"] = func(x *Exec, cs *callSite) *Val {
+		decl(x)
+		x.assumeNote("strconv.ParseUint(s, 10, 64) returns (value(s), nil) for a decimal 64-bit numeral and an error otherwise (uninterpreted value/validity functions of s)")
+		s := x.term(cs.args[0])
+		tup := cs.res.(*types.Tuple)
+		e := x.sc.Fresh("parse_err", SIface)
+		okc := App(SBool, "strconv.isu64", s)
+		x.assume(cs.st, Eq(Eq(e, Term{"inil", SIface}), okc))
+		return &Val{Ty: tup, Tuple: []*Val{{T: Ite(okc, App(SBV64, "strconv.u64", s), bv64(0)), Ty: tup.At(0).Type()}, {T: e, Ty: errorType}}}
+	}
+	contractBuiltins["parseu64"] = func(x *Exec, env *CEnv, n *CCall) (*CV, error) {
+		v, err := x.eval(env, n.Args[0])
+		if err != nil {
+			return nil, err
+		}
+		decl(x)
+		return &CV{T: App(SBV64, "strconv.u64", x.cvTerm(v, nil)), Ty: types.Typ[types.Uint64]}, nil
+	}
+	contractBuiltins["isu64"] = func(x *Exec, env *CEnv, n *CCall) (*CV, error) {
+		v, err := x.eval(env, n.Args[0])
+		if err != nil {
+			return nil, err
+		}
+		decl(x)
+		return &CV{T: App(SBool, "strconv.isu64", x.cvTerm(v, nil)), Ty: types.Typ[types.Bool]}, nil
+	}
+	// slices.Contains over []string: membership
+	libModels["slices.Contains"] = func(x *Exec, cs *callSite) *Val {
+		sl, ok := cs.cc.Args[0].Type().Underlying().(*types.Slice)
+		if !ok || !isString(sl.Elem()) {
+			x.assumeNote("slices.Contains on a non-string slice summarised as an unconstrained result")
+			return x.freshResult(cs.st, "contains", cs.res)
+		}
+		x.assumeNote("slices.Contains(s, v) == exists i. s[i] == v")
+		s, v := x.term(cs.args[0]), x.term(cs.args[1])
+		h := x.heap(cs.st, sl.Elem())
+		arr := x.sc.Define("contains_arr", Select(h, sBase(s)))
+		t := T(SBool, "(exists ((a (_ BitVec 64))) (and (bvult (bvsub a %s) %s) (= (select %s a) %s)))", sOff(s).S, sLen(s).S, arr.S, v.S)
+		return &Val{T: x.sc.Define("contains", t), Ty: types.Typ[types.Bool]}
+	}
+	delete(pureFuncs, "slices.Contains")
+}
